@@ -324,6 +324,17 @@ func families() [][]poolEntry {
 			ev("opname", `query A { tag } mutation B { bump(by: 3) }`, true, []string{"A", "B"}),
 			ev("opname", `query B { tag } mutation A { bump(by: 3) }`, true, []string{"A", "B"}),
 		},
+		{ // definitions the selected operation does not reach (validation looks at the whole document): pairs that differ
+			// only there must not share an entry (D-06l)
+			ev("otherdefs", `query A { tag } query B { tag }`, true, []string{"A", "B"}),
+			ev("otherdefs", `query A { tag } query B { nope }`, true, []string{"A", "B"}),
+			ev("otherdefs", `query A { tag } query B { echo(s: 1) }`, true, []string{"A", "B"}),
+			ev("otherdefs", `query A { tag } query B { echo(s: "1") }`, true, []string{"A", "B"}),
+			ev("otherdefs", `query A { tag ...F } query B { tag } fragment F on Query { echo(i: 1) }`, true, []string{"A", "B"}),
+			ev("otherdefs", `query A { tag ...F } query B { tag } fragment F on Query { echo(i: "x") }`, true, []string{"A", "B"}),
+			e("otherdefs", `{ tag } fragment F on Query { tag }`, true), e("otherdefs", `{ tag } fragment F on Query { nope }`, true),
+			e("otherdefs", `{ tag } fragment F on Nope { tag }`, true), e("otherdefs", `{ tag }`, true),
+		},
 		{ // text that imitates the key encodings: moving bytes between operation name and query
 			ev("keylike", `{tag}`, true, []string{"", " ", "1", "0:", "5:{tag}"}), ev("keylike", ` {tag}`, true, []string{"", " "}),
 			ev("keylike", `:{tag}`, true, []string{"", "0"}), ev("keylike", `0:{tag}`, true, []string{"", "1"}),
